@@ -5,6 +5,7 @@ mod gen;
 #[rustfmt::skip]
 mod generated;
 mod guard;
+mod initunit;
 mod obs;
 mod ops;
 mod schema_ops;
@@ -55,6 +56,7 @@ fn main() {
             let mut ge = g.fork();
             run(&mut ge, &budget, &mut out);
         }
+        initunit::unit_init_cases(&mut out);
     } else if prop == "C15" {
         guard::guard_workload(&mut out);
     } else if prop == "C14" {
